@@ -212,7 +212,7 @@ def instances(tier):
     pairs = [('small', '1'), ('1', 'int'), ('int', '2'), ('0', '2'), (str(0x4c), '1'), ('op', '0'), ('2', 'small'),
              ('1', 'small', '2'), ('op', '1', '0'), ('2', str(0x4b), '0'), ('0', '0', 'int')]
     if tier != 'quick':
-        pairs += [('int', '0', 'int'), ('small', 'op'), ('op', 'int'), ('small', 'small'), (str(0xff), str(0x100), '1'), ('int', 'int', 'int')]
+        pairs += [('int', '0', 'int'), ('small', 'op'), ('op', 'int'), ('small', 'small'), (str(0xff), str(0x100), '1'), ('int', 'int')]
     for ks in pairs:
         out.append(dict(h='build', p=dict(kinds=list(ks))))
     maxn = 4 if tier == 'quick' else 5
